@@ -533,6 +533,9 @@ func evalSubqueryForValue(ctx context.Context, scope *ReferenceScope, expr parse
 	if 1 < view.FieldLen() {
 		return nil, NewSubqueryTooManyFieldsError(expr)
 	}
+	if view.FieldLen() < 1 {
+		return nil, NewSubqueryNoFieldsError(expr)
+	}
 
 	if 1 < view.RecordLen() {
 		return nil, NewSubqueryTooManyRecordsError(expr)
@@ -1107,6 +1110,9 @@ func evalSubqueryForArray(ctx context.Context, scope *ReferenceScope, expr parse
 
 	if 1 < view.FieldLen() {
 		return nil, NewSubqueryTooManyFieldsError(expr)
+	}
+	if view.FieldLen() < 1 {
+		return nil, NewSubqueryNoFieldsError(expr)
 	}
 
 	if view.RecordLen() < 1 {
